@@ -23,6 +23,7 @@ var regressions = map[string][]string{
 	"C03": {"B35", "B35h"},
 	"C09": {"B35h", "B4"},
 	"C10": {"B44"},
+	"C16": {"B45"},
 }
 
 func main() {
